@@ -128,4 +128,4 @@ def _diff(a, b, path=""):
 
 
 def parts(tier):
-    return [Part("add", strategy=lambda t: case_strategy(t), check=check, quick=(8, 50), thorough=(16, 800))]
+    return [Part("add", strategy=lambda t: case_strategy(t), check=check, quick=(8, 120), thorough=(16, 800))]
